@@ -5,8 +5,8 @@ import (
 	"unsafe"
 )
 
-// SentinelRead reads every word reachable from v (through exported and
-// unexported fields alike), including the unused capacity of every slice and
+// SentinelRead reads every word reachable from v through EXPORTED fields,
+// including the unused capacity of every slice and
 // at least one access to every map, so that the race detector has a recorded
 // read of another goroutine for any later write to that memory. It uses only
 // reflect and raw loads: no fmt, no sync.
@@ -50,15 +50,35 @@ func (s *sentinel) walk(v reflect.Value) {
 		}
 		s.seen[p] = true
 		s.objs++
-		s.raw(v.UnsafePointer(), v.Type().Elem().Size())
+		if v.Type().Elem().Kind() != reflect.Struct {
+			s.raw(v.UnsafePointer(), v.Type().Elem().Size())
+		}
 		s.walk(v.Elem())
 	case reflect.Interface:
 		if !v.IsNil() {
 			s.walk(v.Elem())
 		}
 	case reflect.Struct:
+		// Only EXPORTED fields: they are what any goroutine may read without
+		// synchronisation through the public API. An unexported field may be a
+		// private cache with a locking discipline of its own; an unlocked read by
+		// the sentinel would fabricate a race against correctly synchronised code.
+		t := v.Type()
 		for i := 0; i < v.NumField(); i++ {
-			s.walk(v.Field(i))
+			f := t.Field(i)
+			if f.PkgPath != "" {
+				continue
+			}
+			fv := v.Field(i)
+			if fv.CanAddr() {
+				switch fv.Kind() {
+				case reflect.Struct, reflect.Array:
+					// read field-wise below
+				default:
+					s.raw(fv.Addr().UnsafePointer(), f.Type.Size())
+				}
+			}
+			s.walk(fv)
 		}
 	case reflect.Slice:
 		if v.IsNil() || v.Cap() == 0 {
@@ -70,7 +90,9 @@ func (s *sentinel) walk(v reflect.Value) {
 			return
 		}
 		s.seen[key] = true
-		s.raw(v.UnsafePointer(), uintptr(v.Cap())*v.Type().Elem().Size())
+		if v.Type().Elem().Kind() != reflect.Struct {
+			s.raw(v.UnsafePointer(), uintptr(v.Cap())*v.Type().Elem().Size())
+		}
 		var full reflect.Value
 		if v.CanInterface() {
 			full = v.Slice(0, v.Cap())
